@@ -61,9 +61,22 @@ class MetabookObject:
     def _json(self):
         type_names = {"type": self.__class__.__name__}
         for k, value in self.__dict__.items():
-            if value is not None and not k.startswith("_"):
-                type_names[k] = value
+            if k.startswith("_"):
+                continue
+            # None is the value of an absent entry, so it need not be stored -- unless the
+            # class default is something else: loading would then restore that default
+            # and the metabook (and its checksum) would change by being saved.
+            if value is None and self._class_default(k) is None:
+                continue
+            type_names[k] = value
         return type_names
+
+    @classmethod
+    def _class_default(cls, key):
+        value = getattr(cls, key, None)
+        if callable(value) or isinstance(value, property):
+            return None
+        return value
 
     def __repr__(self):
         return f"<{self.__class__.__name__} {self.__dict__!r}>"
